@@ -559,6 +559,11 @@ class Interp:
             if m is not None:
                 h = self.invoke(FuncRef(m, c.module, c), [v], {})
                 return ('hashed', v.cls.name, repr(self.vkey(h)))
+            if any('dataclass' in self.models.class_decorators(k_) or '__eq__' in k_.methods or '__hash__' in k_.class_attrs for k_ in self.prog.mro(v.cls)):
+                # generated / aliased / disabled __hash__: the hash builtin decides (TypeError for an unhashable key)
+                h = self.models.builtin(self, 'hash', [v], {}, None)
+                if not (isinstance(h, Term) and h.op == 'hash' and h.a and h.a[0] is v):
+                    return ('hashed', v.cls.name, repr(self.vkey(h)))
         if isinstance(v, K):
             try:
                 hash(v.v)
